@@ -41,7 +41,9 @@ const CLASSES: [Class; 10] = [
     Class::Const,
     Class::SmallInt,
 ];
-const GAMMAS: [f64; 6] = [0.0, 0.25, 0.5, 0.75, 0.8125, 0.9375];
+/// (511/512: a smoothing constant within 0.2 % of one, where a direct-form rewrite of the ladder
+/// loses its accuracy)
+const GAMMAS: [f64; 7] = [0.0, 0.25, 0.5, 0.75, 0.8125, 0.9375, 0.998046875];
 
 #[derive(Clone, Debug)]
 pub struct Case {
